@@ -112,8 +112,11 @@ def finding_key(case, f):
     if st in ('panic', 'fatal', 'engine-panic', 'engine-err'):
         parts.append(msg_kind(_unhex(f.get('msg'))))
     elif st in ('hang', 'oom'):
+        # where a hung / allocating goroutine happens to be SAMPLED is timing-dependent: the class is the third-party decoder library if the
+        # sample fell inside one, and `own` if it fell into the extractor's own code or the standard library called from it (or nowhere)
         lib_ = _unhex(f.get('lib'))
-        parts.append(_slug(lib_.split('/')[-1]) if lib_ else 'unknown-site')
+        third = bool(lib_) and '.' in lib_.split('/')[0] and not lib_.startswith('github.com/google/osv-scalibr')
+        parts.append(_slug(lib_.split('/')[-1]) if third else 'own')
     return 'C02/' + '-'.join(parts)
 
 
